@@ -1603,3 +1603,51 @@ func ifaceMeasureIter(i *Iter) int {
 //@   ensures lands: implies(q < len(a.tape.Tape), result == TagToType[tagOf(a.tape.Tape[q])])
 //@   ensures end: implies(q == len(a.tape.Tape), result == TypeNone)
 
+
+// ---------------------------------------------------------------------------
+// Thin public wrappers: each carries the contract of the function it delegates to, so a change INSIDE the wrapper
+// (a conversion, a truncation, a swapped result) fails the wrapper's own obligation instead of going unseen.
+
+// SetString(v) is SetStringBytes over the bytes of v (C13 names both spellings).
+//@ func (*Iter).SetString
+//@   props C13
+//@   requires positioned(i) && i.tape.Strings != nil && len(i.tape.Strings.B) < 1<<46
+//@   ensures ok: implies(isNumOrString(old(i.t)), result == nil && tagOf(i.tape.Tape[i.off-1]) == TagString && payOf(i.tape.Tape[i.off-1]) == STRINGBUFBIT|uint64(len(old(i.tape.Strings.B))) && i.tape.Tape[i.off] == uint64(len(v)) && i.t == TagString && len(i.tape.Strings.B) == len(old(i.tape.Strings.B))+len(v))
+//@   ensures curfield: implies(isNumOrString(old(i.t)), i.cur&JSONVALUEMASK == payOf(i.tape.Tape[i.off-1]))
+//@   ensures appended: implies(isNumOrString(old(i.t)), forall(0, len(v), func(k int) bool { return i.tape.Strings.B[len(old(i.tape.Strings.B))+k] == v[k] }))
+//@   ensures oldstrings: forall(0, len(old(i.tape.Strings.B)), func(k int) bool { return i.tape.Strings.B[k] == old(i.tape.Strings.B)[k] })
+//@   ensures frame: forall(0, len(i.tape.Tape), func(j int) bool { return implies(!(isNumOrString(old(i.t)) && (j == i.off-1 || j == i.off)), i.tape.Tape[j] == old(i.tape.Tape)[j]) })
+//@   ensures gate: implies(!isNumOrString(old(i.t)), result != nil && i.t == old(i.t) && i.cur == old(i.cur) && len(i.tape.Strings.B) == len(old(i.tape.Strings.B)))
+//@   ensures pos: i.off == old(i.off) && i.addNext == old(i.addNext) && len(i.tape.Tape) == len(old(i.tape.Tape))
+//@   safe
+
+// NextElement is NextElementBytes with the name converted to a string: same step, same member, same end test.
+//@ func (*Object).NextElement variant anytape
+//@   props C05 C19
+//@   ghost q int
+//@   requires 0 <= o.off && o.off <= 1<<57 && o.tape.Strings != nil
+//@   ensures[C14,C02] member: implies(nopRun(old(o.tape.Tape), old(o.off), q) && q < len(o.tape.Tape) && tagOf(o.tape.Tape[q]) == TagString && result2 == nil, q+2 < len(o.tape.Tape) && dst.t == tagOf(o.tape.Tape[q+2]) && dst.cur == payOf(o.tape.Tape[q+2]) && dst.off == q+3 && result1 == TagToType[dst.t] && o.off == q+3+stepAddNext(dst.t, dst.cur, q+3) && len(dst.tape.Tape) == o.off && len(result0) == int(o.tape.Tape[q+1]))
+//@   ensures[C14,C02] endobj: implies(nopRun(old(o.tape.Tape), old(o.off), q) && (q == len(o.tape.Tape) || tagOf(o.tape.Tape[q]) == TagObjectEnd), result2 == nil && result1 == TypeNone)
+//@   ensures progress: implies(result2 == nil && result1 != TypeNone, o.off > old(o.off))
+//@   ensures atend: implies(old(o.off) >= len(o.tape.Tape), result1 == TypeNone && result2 == nil)
+//@   ensures inv: 0 <= o.off && o.off <= 1<<57 && len(o.tape.Tape) == len(old(o.tape.Tape))
+//@   nonnil dst
+//@   safe
+
+// The iterators handed out for a document and for an array start exactly at the container's first entry with
+// nothing queued: what Advance() then exposes is the first element, not the second and not the container itself.
+//@ func (*Array).Iter
+//@   props C02 C05
+//@   ensures start: result.off == a.off && result.addNext == 0 && len(result.tape.Tape) == len(a.tape.Tape)
+//@   safe
+
+//@ func (*ParsedJson).Iter
+//@   props C02 C05
+//@   ensures start: result.off == 0 && result.addNext == 0 && len(result.tape.Tape) == len(pj.Tape)
+//@   safe
+
+//@ func (*ParsedJson).stringAt
+//@   props C05 C19 C02
+//@   requires pj.Strings != nil
+//@   ensures len: implies(result1 == nil, len(result0) == int(length))
+//@   safe
